@@ -104,6 +104,7 @@ fn main() {
             let v: serde_json::Value = serde_json::from_str(&std::fs::read_to_string(&args[2]).unwrap()).unwrap();
             let v = if v.get("scenario").is_some() { v["scenario"].clone() } else { v };
             let sc: e2::E2Scenario = serde_json::from_value(v).unwrap();
+            sandbox::set_links(&sc.project.links);
             sandbox::reset_tree(&sc.tree_bytes());
             let st = std::process::Command::new("bash").arg("-c").arg(&args[3]).current_dir(&sc.project.cwd)
                 .env("NVSIM_ARGS", sc.project.config_args().join(" ")).env("NVSIM_FLAGS", sc.project.flag_args().join(" ")).status().unwrap();
